@@ -170,6 +170,12 @@ VARIANTS = [
     V("final dtype widened for the fill only when min_count > 0", ("C11",), "R-FINALDEPS", "aggregations.py", '        dtype_ or agg.dtype_init["final"], array_dtype, agg.preserves_dtype, fill_value\n', '        dtype_ or agg.dtype_init["final"], array_dtype, agg.preserves_dtype, fill_value if min_count > 0 else None\n', must_mention="min_count"),
     # ---------------- R-BITMASK (C09)
     V("incidence matrix summed in uint8", ("C09",), "R-BITMASK", "core.py", '        return csc_array((data, (rows, cols)), dtype=bool, shape=(nchunks, nlabels))', '        return csc_array((data, (rows, cols)), shape=(nchunks, nlabels)).astype(bool)', must_mention="uint8"),
+    # ---------------- R-AXISRANGE, R-PAIRS[broadcast] (C19, C08)
+    V("axis outside the labels' dimensions no longer refused", ("C19", "C08"), "R-AXISRANGE", "core.py", '        if any(ax < array.ndim - by_.ndim for ax in axis_):\n            raise ValueError(', '        if False:\n            raise ValueError(', must_mention="axis"),
+    V("size-1 label dimensions not broadcast before a partial reduction", ("C19", "C08"), "R-PAIRS[broadcast]", "core.py", '        if by_.shape != array.shape[-by_.ndim :]:\n            # size-1 dimensions of `by`: every kept slice needs its own copy of the labels\n            by_ = np.broadcast_to(by_, array.shape[-by_.ndim :])\n', '', must_mention="broadcast"),
+    V("twin: labels always broadcast in the partial-axis branch", ("C19", "C08"), "", "core.py", '        if by_.shape != array.shape[-by_.ndim :]:\n            # size-1 dimensions of `by`: every kept slice needs its own copy of the labels\n            by_ = np.broadcast_to(by_, array.shape[-by_.ndim :])\n', '        by_ = np.broadcast_to(by_, array.shape[-by_.ndim :])\n', expect="silent"),
+    # ---------------- R-REGKEY extended (C19)
+    V("xarray fallback dispatches on the user's func without a check", ("C19",), "R-REGKEY", "xarray.py", '        if not hasattr(ds_broad, func):\n            raise NotImplementedError(\n                f"func={func!r} is not supported when reducing along dimensions that are not present in `by`."\n            )\n', '', must_mention="getattr"),
     # ---------------- R-LOOPSTORE (C09, C19)
     V("cohort map overwrites a repeated block set", ("C09", "C19"), "R-LOOPSTORE", "core.py", '        merged_cohorts[chunk] = sorted(merged_cohorts.get(chunk, []) + cohort)', '        merged_cohorts[chunk] = cohort', must_mention="merged_cohorts"),
     V("twin: cohort map merges under an explicit membership test", ("C09", "C19", "C02"), "", "core.py", '        merged_cohorts[chunk] = sorted(merged_cohorts.get(chunk, []) + cohort)',
